@@ -10,7 +10,7 @@ from ..core import AnalysisError, Ctx, norm
 from ..pyfacts import dotted, calls_in
 
 META = {
-    "explanation": "The chain lexer token -> Parser.comments_dict -> node.meta.comments -> __comments__ -> printed text is evaluated link by link with PAI on comment texts that are opaque atoms, so 'verbatim' and 'at most once' are decided for all comment texts: (K1) Parser.parse stores value.strip() of every buffered comment token under its line and nothing else; (K2) _assign_comments, evaluated on a tree with nodes and comments at chosen line numbers, attaches each pending comment to the first following attr / composite / projection / string_pair node and removes it from the pending table (each comment attached exactly once, comments after the last node stay unattached); (K3) the CommentsTransformer callbacks and add_metadata_comments move meta.comments into __comments__ unchanged, METADATA pair comments under the pair's cleaned lower-cased key; composite() hoists attribute comments under the attribute's key; (K4) the printer writes a block's __type__ comments as whole lines directly above the opener at the opener's indentation, an attribute's comments at the end of that attribute's own line after one space, each comment text exactly once and unmodified, for objects and for METADATA / VALIDATION / CONNECTIONOPTIONS blocks; (K5) removing the comment pieces leaves exactly the lines of the comment-free output.",
+    "explanation": "The chain lexer token -> Parser.comments_dict -> node.meta.comments -> __comments__ -> printed text is evaluated link by link with PAI on comment texts that are opaque atoms, so 'verbatim' and 'at most once' are decided for all comment texts: (K1) Parser.parse stores value.strip() of every buffered comment token under its line and nothing else; (K2) _assign_comments, evaluated on a tree with nodes and comments at chosen line numbers, attaches each pending comment to the first following attr / composite / projection / string_pair node and removes it from the pending table (each comment attached exactly once, comments after the last node stay unattached); (K3) the CommentsTransformer callbacks and add_metadata_comments move meta.comments into __comments__ unchanged, METADATA pair comments under the pair's cleaned lower-cased key; composite() hoists attribute comments under the attribute's key; (K4) the printer writes a block's __type__ comments as whole lines directly above the opener at the opener's indentation, an attribute's comments at the end of that attribute's own line after one space, each comment text exactly once and unmodified, for objects and for METADATA / VALIDATION / CONNECTIONOPTIONS blocks; (K5) removing the comment pieces leaves exactly the lines of the comment-free output. K4 also prints the same commented dictionary twice (indent 2 and 0): the lines are the same and the __comments__ tables are left as they were.",
     "level_text": "Which node a comment ends up attached to depends on run-time line numbers of a concrete layout and is not decided in general; the clauses above are the structural necessary conditions (provenance, consumption once, placement templates). K2 evaluates the attachment rule itself on a small line-number scenario that covers before / between / after placements.",
     "level_note": "Trusted: lark reports comment tokens with their line; propagate_positions gives node.meta.line / end_line. The feature is documented as experimental: only the placements of docs/comments.rst are claimed.",
     "technique": "abstract interpretation of each link of the comment chain with opaque comment texts; placement templates from the printer model",
